@@ -42,10 +42,10 @@ type Profile struct {
 
 // Replay is the artefact stored with a violation.
 type Replay struct {
-	Engine  string  `json:"engine"`
-	Profile string  `json:"profile"`
-	Config  Config  `json:"config"`
-	Events  []Event `json:"events"`
+	Engine  string   `json:"engine"`
+	Profile string   `json:"profile"`
+	Config  Config   `json:"config"`
+	Events  []Event  `json:"events"`
 	Trace   []string `json:"trace"`
 }
 
